@@ -461,7 +461,7 @@ pub fn main_c12(a: Args) -> i32 {
                 nfail += 1;
                 out.line("specfail.txt", &format!("{} C12 out of step: {} well-formed requests but {} replies (class {})", id, nreq, raw.len(), s.class));
             } else if let Some(i) = raw.iter().position(|x| x.starts_with("Error")) {
-                if exit == "EXIT0" && i + 1 < nreq {
+                if i + 1 < nreq {
                     // tree after request i
                     write_tree(&root, &s.init);
                     let prefix = s.input[..segs[i].1].to_vec();
@@ -630,6 +630,7 @@ pub fn main_c11(a: Args) -> i32 {
         out.add("put_content_bytes", (0..chunk.len()).filter(|&i| kinds[i] == 1).map(|i| bodies[i].len() as u64).sum());
         let run = run_serve_paused(&copia, &root, &full, &[("LD_PRELOAD", shim.clone()), ("VPSCHED_LOG", logf.clone())], &pauses);
         let after_out = outside_snapshot();
+        let tree_full = tree_string(&root); // before any single-request replay below resets the sandbox
         let (rs, _) = parse_replies(&run.stdout);
         // replies: Hello, then per path (reply, probe)
         let mut refused = vec![];
@@ -712,7 +713,6 @@ pub fn main_c11(a: Args) -> i32 {
         }
         // differential: the same session without the refused requests gives the same replies to the others and the same tree
         if !refused.is_empty() {
-            let tree_full = tree_string(&root);
             setup();
             let (without, pauses2) = build2(&|i| refused.contains(&i));
             let run2 = run_serve_paused(&copia, &root, &without, &[], &pauses2);
@@ -725,7 +725,8 @@ pub fn main_c11(a: Args) -> i32 {
             }
             if rs2 != expect || tree_string(&root) != tree_full {
                 nfail += 1;
-                out.line("specfail.txt", &format!("{} C11 session with refused requests differs from the session without them: {:?}", id - 1, chunk));
+                let sh = |v: &Vec<String>| v.iter().map(|x| x.chars().take(40).collect::<String>()).collect::<Vec<_>>();
+                out.line("specfail.txt", &format!("{} C11 session with refused requests differs from the session without them: replies to the other requests {:?} vs {:?}; tree {} vs {}; exit {:?} vs {:?}; paths {:?}", id - 1, sh(&expect), sh(&rs2), tree_full.chars().take(200).collect::<String>(), tree_string(&root).chars().take(200).collect::<String>(), run.code, run2.code, chunk.iter().map(|p| p.chars().take(30).collect::<String>()).collect::<Vec<_>>()));
             }
             out.count("differential_sessions");
         }
